@@ -84,20 +84,24 @@ def spanP (p : Char → Bool) : List Char → List Char × List Char
   | [] => ([], [])
   | c :: cs => if p c then let (a, b) := spanP p cs; (c :: a, b) else ([], c :: cs)
 
+/-- optional sign: (negative?, rest) -/
+def splitSign (t : Tok) : Bool × Tok :=
+  match t with
+  | '-' :: r => (true, r)
+  | '+' :: r => (false, r)
+  | _ => (false, t)
+
 /-- `is >> n` for `unsigned long` on the pending token: value and unread rest; `none` = failbit.
     libstdc++ `num_get::_M_extract_int<unsigned long>`: optional `+`/`-`, decimal digits (at least
     one), result negated modulo 2^64 after a `-`, overflow of the magnitude sets failbit. -/
 def scanN (t : Tok) : Option (Nat × Tok) :=
-  let (neg, body) := match t with
-    | '-' :: r => (true, r)
-    | '+' :: r => (false, r)
-    | _ => (false, t)
-  let (ds, rest) := spanP isDig body
-  if ds.isEmpty then none
+  let nb := splitSign t
+  let dr := spanP isDig nb.2
+  if dr.1.isEmpty then none
   else
-    let v := evalDigits (ds.map digitVal)
+    let v := evalDigits (dr.1.map digitVal)
     if v ≥ two64 then none
-    else some (if neg then (two64 - v) % two64 else v, rest)
+    else some (if nb.1 then (two64 - v) % two64 else v, dr.2)
 
 /-- unread rest of a token goes back in front of the stream -/
 def pushBack (r : Tok) (ts : Stream) : Stream :=
@@ -428,7 +432,7 @@ def polLoop (io : DblIO D) (S A O : Nat) : Nat → VF D → Bool → Nat → Rd 
       let (b, s'') := atSign s'
       polLoop io S A O f (appendToLast vf e) b oldH s''
 
-def streamSize (s : Stream) : Nat := s.foldl (fun n t => n + t.length + 1) 0
+def streamSize (s : Stream) : Nat := (s.map (fun t => t.length + 1)).sum
 
 def rdPPol (io : DblIO D) (S A O : Nat) : Rd (VF D) := fun s =>
   polLoop io S A O (2 * streamSize s + 2) (vf0 io S) true 1 s
